@@ -19,6 +19,9 @@ Init ==
      \/ \E ls \in [1..CalLen -> CalLens] :       \* read calendars of any lengths (the cycle is not declared)
           /\ \E k \in 1..CalLen : ls[k] >= 25 /\ ls[k] <= 35
           /\ in = [kind |-> "calendar", periods |-> [k \in 1..CalLen |-> [len |-> ls[k], extra |-> 0, amount |-> 10 * (k + 1) * ls[k]]]]
+     \/ \E n \in {8, 40}, f \in {"plain", "short", "long"}, ms \in {<<>>, <<3>>, <<2, 3, 6>>} :      \* daily readings (one a day, at local midnight)
+          /\ (Len(ms) > 1 => n = 40)      \* (a week with three gaps has a median spacing above a day: the granularity of so short a series is anybody's guess)
+          /\ in = [kind |-> "dailyreads", n |-> n, first |-> f, missing |-> ms]
      \/ \E iv \in {15, 30, 60}, dm \in {1380, 1440, 1500}, how \in {"lead", "spread"} : \E k \in 0..(dm \div iv) :
           /\ (k = 0 => how = "lead")
           /\ in = [kind |-> "subdaily", interval |-> iv, dayMin |-> dm, total |-> dm \div iv, missing |-> Miss(dm \div iv, k, how)]
